@@ -70,6 +70,29 @@ def build_cfg(ex, ir, shape, deftype, lit):
     return ir.cfg(ex, 'd', 'Bn254', blocks, def_type=deftype, params=[n0])
 
 
+def deep_same(a, b):
+    """purely structural comparison of two engine values (no user PartialEq: Meta's ignores the knowledge fields)"""
+    from mirsym.models_coll import MapV, SetV, BitSetV
+    a = deref(a); b = deref(b)
+    if type(a) is not type(b):
+        if isinstance(a, (int, bool)) and isinstance(b, (int, bool)): return a == b
+        return False
+    if isinstance(a, (int, bool, str)): return a == b
+    if a is None: return b is None
+    if is_sym(a): return simp(eq(a, b)) is True
+    if isinstance(a, Struct): return a.ty == b.ty and len(a.f) == len(b.f) and all(deep_same(x, y) for x, y in zip(a.f, b.f))
+    if isinstance(a, Enum): return a.var == b.var and len(a.f) == len(b.f) and all(deep_same(x, y) for x, y in zip(a.f, b.f)) if isinstance(a.var, str) else (simp(eq(a.var, b.var)) is True)
+    if isinstance(a, BoxV): return deep_same(a.f[0], b.f[0])
+    if isinstance(a, BigV): return deep_same(a.t, b.t)
+    if isinstance(a, VecV): return len(a.items) == len(b.items) and all(deep_same(x, y) for x, y in zip(a.items, b.items))
+    if isinstance(a, StrV): return len(a.chars) == len(b.chars) and all(deep_same(x, y) for x, y in zip(a.chars, b.chars))
+    if isinstance(a, SetV): return len(a.items) == len(b.items) and all(deep_same(x, y) for x, y in zip(a.items, b.items))
+    if isinstance(a, BitSetV): return all(deep_same(x, y) for x, y in zip(a.bits, b.bits))
+    if isinstance(a, MapV): return len(a.entries) == len(b.entries) and all(deep_same(x[0], y[0]) and deep_same(x[1], y[1]) for x, y in zip(a.entries, b.entries))
+    if isinstance(a, Opaque): return a.tag == b.tag
+    return a is b
+
+
 def run_task(task):
     pr = prog(); ir = IR(pr)
     h = Harness(pr, 'structure')
@@ -125,7 +148,7 @@ def run_task(task):
         ex.oblige(st['reads'] >= 1, 'clock', 'the clock is consulted at the end of every pass')
         if 'fired' in st:
             ex.oblige(st['after_fire'] == 0, 'work-after-bailout', 'no propagation rule runs after the time box fired (pass %d)' % st['fired'])
-            same = val_eq(ex, st['snap'], st['cfg'])
+            same = deep_same(st['snap'], st['cfg'])
             ex.oblige(same, 'state-after-bailout', 'annotations at return are exactly those present when the clock was read (bail-out at pass %d)' % st['fired'])
             ex.oblige(st['reads'] == st['fired'] + 1, 'clock', 'the loop ends at the bail-out')
     st_, vs, inc = explore(h, fn, mk, post=post, base=base, stats=stats, seed=common.seed())
